@@ -591,14 +591,17 @@ Proof.
 Qed.
 
 (* ---------- documents that render a program ---------- *)
-Inductive renders_doc : list Prog.iline -> list (lelem * nat) -> Prop :=
-| RDnil : renders_doc [] []
-| RDinstr l ils t k es : renders_line spell l t -> renders_doc ils es -> renders_doc (l :: ils) ((LInstr t, k) :: es)
-| RDcomment c k ils es : comment_plain c -> renders_doc ils es -> renders_doc ils ((LComment c, k) :: es).
+(* the first argument: the expression of the ORG line, if the document has one *)
+Inductive renders_doc : option nexpr -> list Prog.iline -> list (lelem * nat) -> Prop :=
+| RDnil : renders_doc None [] []
+| RDinstr org l ils t k es : renders_line spell l t -> renders_doc org ils es -> renders_doc org (l :: ils) ((LInstr t, k) :: es)
+| RDcomment org c k ils es : comment_plain c -> renders_doc org ils es -> renders_doc org ils ((LComment c, k) :: es)
+| RDorg e kw cmt k ils es : dir_kw_ok kw "org" -> nok e -> renders_doc None ils es ->
+    renders_doc (Some e) ils ((LDir kw (etoks spell e) cmt, k) :: es).
 
-Lemma rd_names ils es : renders_doc ils es -> dnames es = map spell (flat_map il_labels ils).
+Lemma rd_names org ils es : renders_doc org ils es -> dnames es = map spell (flat_map il_labels ils).
 Proof.
-  induction 1 as [|l ils t k es [Hl _] _ IH|c k ils es _ _ IH]; cbn [dnames flat_map]; [reflexivity| |exact IH].
+  induction 1 as [|org l ils t k es [Hl _] _ IH|org c k ils es _ _ IH|e kw cmt k ils es _ _ _ IH]; cbn [dnames flat_map]; try exact IH; [reflexivity|].
   rewrite map_app, Hl, IH. reflexivity.
 Qed.
 
@@ -606,38 +609,43 @@ Lemma set_labels ids C : forall tab,
   fold_left (fun m l0 => lab_set l0 C m) (map spell ids) tab = set_all (spell_pairs (map (fun id => (id, C)) ids)) tab.
 Proof. induction ids as [|id t IH]; intros tab; [reflexivity|]. cbn [map fold_left]. rewrite IH. reflexivity. Qed.
 
-Lemma rd_symbols cfg ils es : renders_doc ils es -> forall C v tab se cur,
+Lemma rd_symbols cfg org ils es : renders_doc org ils es -> forall C v tab se cur,
   fold_left (ls_step cfg) (elines C es) (mkC v tab se, cur) =
-  (mkC v (set_all (spell_pairs (lab_pairs C ils)) tab) se, cur + Z.of_nat (length ils)).
+  (mkC v (set_all (spell_pairs (lab_pairs C ils)) tab) (match org with Some e => etoks spell e | None => se end),
+   cur + Z.of_nat (length ils)).
 Proof.
-  induction 1 as [|l ils t k es [Hl _] _ IH|c k ils es _ _ IH]; intros C v tab se cur; cbn [elines fold_left lab_pairs length].
+  induction 1 as [|org l ils t k es [Hl _] _ IH|org c k ils es _ _ IH|e kw cmt k ils es Hkw _ _ IH]; intros C v tab se cur; cbn [elines fold_left lab_pairs length].
   - unfold set_all. cbn. rewrite Z.add_0_r. reflexivity.
   - cbn [ls_step tline_sline sl_typ sl_labels sl_codeline c_values c_labels c_startexpr]. rewrite IH.
     rewrite Hl, set_labels. unfold spell_pairs. rewrite map_app, set_all_app. f_equal. lia.
   - cbn [ls_step comment_sline sl_typ]. apply IH.
+  - destruct (dir_kw_facts kw "org" (or_introl eq_refl) Hkw) as [_ [_ [K1 [K2 K3]]]]. cbn in K2, K3.
+    cbn [ls_step dir_sline sl_typ sl_op sl_a c_values c_labels]. rewrite K1, K2. rewrite IH. reflexivity.
 Qed.
 
-Lemma rd_assertions m c ils es : renders_doc ils es -> forall C, eval_assertions m c (elines C es) = Some (EOk 1).
+Lemma rd_assertions m c org ils es : renders_doc org ils es -> forall C, eval_assertions m c (elines C es) = Some (EOk 1).
 Proof.
-  induction 1 as [|l ils t k es _ _ IH|cm k ils es Hc _ IH]; intros C; cbn [elines eval_assertions]; [reflexivity| |].
+  induction 1 as [|org l ils t k es _ _ IH|org cm k ils es Hc _ IH|e kw cmt k ils es _ _ _ IH]; intros C; cbn [elines eval_assertions]; [reflexivity| | |].
   - cbn [tline_sline sl_typ]. apply IH.
   - cbn [comment_sline sl_typ sl_comment]. unfold comment_plain in Hc. rewrite Hc. apply IH.
+  - cbn [dir_sline sl_typ]. apply IH.
 Qed.
 
-Lemma rd_assemble cfg c ls ils es : (0 < c_size cfg)%N -> renders_doc ils es ->
+Lemma rd_assemble cfg c ls org ils es : (0 < c_size cfg)%N -> renders_doc org ils es ->
   forall i acc code s,
   (forall j id, i <= j < i + Z.of_nat (length ils) -> known (mconf_of cfg) ls id ->
                 name_expands spell (Z.of_N (c_size cfg)) c j (rho_of (mconf_of cfg) ls j) id) ->
   meaning_code (mconf_of cfg) [] ls i ils acc = MOk code s ->
   assemble_all cfg c (elines i es) acc = inr code.
 Proof.
-  intros Hm. induction 1 as [|l ils t k es Hl _ IH|cm k ils es _ _ IH]; intros i acc code s Hn H; cbn [elines assemble_all].
+  intros Hm. induction 1 as [|org l ils t k es Hl _ IH|org cm k ils es _ _ IH|e kw cmt k ils es _ _ _ IH]; intros i acc code s Hn H; cbn [elines assemble_all].
   - cbn [meaning_code] in H. inversion H; subst. reflexivity.
   - cbn [meaning_code] in H. destruct (instr_meaning (mconf_of cfg) [] ls i l) as [x| |] eqn:Ei; try discriminate.
     cbn [tline_sline sl_typ]. change (mkSL 0 i lineInstruction _ _ _ _ _ _ _ 0) with (tline_sline i t).
     rewrite (assemble_rendered spell cfg c ls l t i x Hm Hl); [|intros id Hk; apply Hn; [cbn [length]; lia|exact Hk]|exact Ei].
     apply (IH (i + 1) (acc ++ [x]) code s); [|exact H]. intros j id Hj. apply Hn. cbn [length]. lia.
   - cbn [comment_sline sl_typ]. apply (IH i acc code s Hn H).
+  - cbn [dir_sline sl_typ]. apply (IH i acc code s Hn H).
 Qed.
 End Docs.
 
@@ -680,13 +688,13 @@ Proof.
   - apply Z.rem_small. lia.
 Qed.
 
-Lemma known_expands cfg ils se j id :
-  spell_ok (flat_map il_labels ils) -> Z.of_nat (length ils) <= Z.of_N (c_size cfg) -> 0 <= j < Z.of_nat (length ils) ->
-  known (mconf_of cfg) (lab_pairs 0 ils) id ->
-  name_expands spell (Z.of_N (c_size cfg)) (mkC (load_constants cfg) (set_all (spell_pairs spell (lab_pairs 0 ils)) []) se) j
-               (rho_of (mconf_of cfg) (lab_pairs 0 ils) j) id.
+Lemma known_expands cfg ls se j id :
+  spell_ok (map fst ls) -> (forall a, lab_find' id ls = Some a -> Z.abs (a - j) < Z.of_N (c_size cfg)) ->
+  known (mconf_of cfg) ls id ->
+  name_expands spell (Z.of_N (c_size cfg)) (mkC (load_constants cfg) (set_all (spell_pairs spell ls) []) se) j
+               (rho_of (mconf_of cfg) ls j) id.
 Proof.
-  intros [[P1 [P2 [P3 P4]]] Hlab Hinj Hnd _] Hlen Hj Hk.
+  intros [[P1 [P2 [P3 P4]]] Hlab Hinj Hnd _] Hrange Hk.
   unfold name_expands, expand_tok, rho_of. cbn [t_typ t_val c_values c_labels].
   destruct (constants_lookup cfg) as [C1 [C2 [C3 C4]]].
   unfold known in Hk. unfold predefined_value in *. cbn [mconf_of mf_M mf_len mf_procs mf_dist] in *.
@@ -697,17 +705,16 @@ Proof.
   destruct (N.eqb_spec id ID_MAXPROCESSES) as [->|N3]; [rewrite P3, C3; apply Hnum|].
   destruct (N.eqb_spec id ID_MINDISTANCE) as [->|N4]; [rewrite P4, C4; apply Hnum|].
   destruct Hk as [Hk|Hk]; [congruence|].
-  destruct (lab_find' id (lab_pairs 0 ils)) as [a|] eqn:Ea; [|congruence].
-  pose proof (lab_find'_in _ _ _ Ea) as Hin. rewrite lab_pairs_keys in Hin.
+  destruct (lab_find' id ls) as [a|] eqn:Ea; [|congruence].
+  pose proof (lab_find'_in _ _ _ Ea) as Hin.
   destruct (Hlab id Hin) as [_ Hnp]. rewrite (constants_none cfg _ Hnp).
   rewrite set_all_find.
-  - rewrite (assoc_spelled spell id (lab_pairs 0 ils)).
-    + rewrite Ea. cbn [lab_find]. pose proof (lab_pairs_range spell _ _ _ _ Ea) as Hr.
-      cbv zeta. rewrite rem_small_abs by lia.
+  - rewrite (assoc_spelled spell id ls).
+    + rewrite Ea. cbn [lab_find]. cbv zeta. rewrite rem_small_abs by (apply Hrange; reflexivity).
       unfold lit_of. destruct (a - j <? 0); reflexivity.
-    + rewrite lab_pairs_keys. intros x y Hx Hy. apply Hinj; [destruct Hx as [<-|Hx]|destruct Hy as [<-|Hy]]; assumption.
+    + intros x y Hx Hy. apply Hinj; [destruct Hx as [<-|Hx]|destruct Hy as [<-|Hy]]; assumption.
   - unfold spell_pairs. rewrite map_map. cbn [fst].
-    rewrite <- (map_map fst spell). rewrite lab_pairs_keys. apply NoDup_map_spell; assumption.
+    rewrite <- (map_map fst spell). apply NoDup_map_spell; assumption.
 Qed.
 
 Lemma meaning_code_length cf ev ls : forall ils i acc code s,
@@ -719,36 +726,139 @@ Proof.
     rewrite app_length in E1. cbn [length] in *. split; [lia|exact E2].
 Qed.
 
-(* the compiler on the essential lines of a document that renders a program of labelled instructions *)
-Theorem compile_labels cfg ils es lines meta nm au code start :
-  validate cfg = true -> renders_doc spell ils es -> spell_ok (flat_map il_labels ils) ->
-  essential lines = elines 0 es ->
-  meaning (mconf_of cfg) (mkProg (map IInstr ils) None None nm au []) = MOk code start ->
+(* ---------- the END line ---------- *)
+Definition end_pairs (n : Z) (elabs : list N) : labels := map (fun id => (id, n)) elabs.
+Definition renders_end (pend : option nexpr) (elabs : list N) (x : endline) : Prop :=
+  lnames (en_labs x) = map spell elabs /\ lower_is (en_kw x) "end" = true /\
+  match pend with Some e => en_e x = etoks spell e /\ nok e | None => en_e x = [] end.
+
+Lemma lab_find'_app id a b : lab_find' id (a ++ b) = match lab_find' id a with Some v => Some v | None => lab_find' id b end.
+Proof. induction a as [|[k v] t IH]; [reflexivity|]. cbn [app lab_find']. destruct (k =? id)%N; [reflexivity|exact IH]. Qed.
+Lemma end_pairs_find id n elabs a : lab_find' id (end_pairs n elabs) = Some a -> a = n /\ elabs <> [].
+Proof.
+  induction elabs as [|x t IH]; [discriminate|]. cbn [end_pairs map lab_find']. fold (end_pairs n t).
+  destruct (x =? id)%N; [intros H; inversion H; split; [reflexivity|discriminate]|]. intros H. split; [apply (IH H)|discriminate].
+Qed.
+
+Lemma aa_skip_last cfg c x : sl_typ x <> lineInstruction -> forall l acc, assemble_all cfg c (l ++ [x]) acc = assemble_all cfg c l acc.
+Proof.
+  intros Hx. induction l as [|ln t IH]; intros acc; cbn [app assemble_all].
+  - destruct (sl_typ x); try reflexivity. congruence.
+  - destruct (sl_typ ln); try apply IH. destruct (assemble_line cfg c ln); try reflexivity. apply IH.
+Qed.
+Lemma ea_skip_last m c x : sl_typ x <> lineComment -> forall l, eval_assertions m c (l ++ [x]) = eval_assertions m c l.
+Proof.
+  intros Hx. induction l as [|ln t IH]; cbn [app eval_assertions].
+  - destruct (sl_typ x); try reflexivity. congruence.
+  - destruct (sl_typ ln); try apply IH. destruct (has_prefix (s2t ";assert") (sl_comment ln)); [|apply IH].
+    destruct (eval_assert m c (skipn 7 (sl_comment ln))) as [[v| |]|]; try reflexivity. apply IH.
+Qed.
+
+(* the compiler on the essential lines of a document that renders a program of labelled instructions with its
+   ORG line and END line, if any *)
+Theorem compile_program cfg org pend elabs ils es xo lines meta nm au code start :
+  validate cfg = true -> renders_doc spell org ils es -> spell_ok (flat_map il_labels ils ++ elabs) ->
+  match xo with
+  | Some x => renders_end pend elabs x /\ (elabs = [] \/ Z.of_nat (length ils) < Z.of_N (c_size cfg))
+  | None => pend = None /\ elabs = []
+  end ->
+  match org with Some e => nok e | None => True end ->
+  essential lines = elines 0 es ++ match xo with Some x => [end_sline x] | None => [] end ->
+  meaning (mconf_of cfg) (mkProg (map IInstr ils) org pend nm au elabs) = MOk code start ->
   compile cfg lines meta = COk code start meta.
 Proof.
-  intros Hv Hrd Hsp Hess Hmean.
+  intros Hv Hrd Hsp Hend Horg Hess Hmean.
   assert (Hm : (0 < c_size cfg)%N) by (unfold validate in Hv; destruct (c_size cfg <? 3)%N eqn:E; [discriminate Hv|lia]).
   assert (Hlc : (c_len cfg <= c_size cfg)%N).
   { unfold validate in Hv. destruct (c_size cfg <? c_len cfg)%N eqn:E; [|lia].
     repeat (rewrite ?andb_false_r, ?andb_false_l in Hv). discriminate Hv. }
-  unfold meaning in Hmean. cbn [pr_items pr_end_labels pr_org pr_end map] in Hmean.
-  rewrite collect_instrs in Hmean. cbn [app] in Hmean. rewrite app_nil_r in Hmean. rewrite assertions_instrs in Hmean.
-  set (ls := lab_pairs 0 ils) in *.
+  set (n := Z.of_nat (length ils)).
+  unfold meaning in Hmean. cbn [pr_items pr_end_labels pr_org pr_end] in Hmean.
+  rewrite collect_instrs in Hmean. cbn [app] in Hmean. rewrite assertions_instrs in Hmean. rewrite Z.add_0_l in Hmean.
+  fold n in Hmean. change (map (fun id => (id, n)) elabs) with (end_pairs n elabs) in Hmean.
+  set (ls := lab_pairs 0 ils ++ end_pairs n elabs) in *.
   destruct (meaning_code (mconf_of cfg) [] ls 0 ils []) as [code' s'| |] eqn:Emc; try discriminate.
   destruct (meaning_code_length _ _ _ _ _ _ _ _ Emc) as [Elen _]. cbn [length Nat.add] in Elen.
   destruct (mf_len (mconf_of cfg) <? Z.of_nat (length code')) eqn:El; [discriminate|].
-  inversion Hmean; subst code' start. clear Hmean. cbn [mconf_of mf_len] in El.
-  rewrite <- compile_essential, Hess. unfold compile. rewrite Hv. cbn [negb].
-  rewrite load_symbols_fold. rewrite (rd_symbols spell cfg ils es Hrd 0 (load_constants cfg) [] [num_tok 0] 0).
-  cbn [fst c_values c_labels c_startexpr]. rewrite constants_acyclic.
-  rewrite (rd_assertions spell _ _ ils es Hrd 0). rewrite constants_resolved.
-  fold ls. set (c := mkC (load_constants cfg) (set_all (spell_pairs spell ls) []) [num_tok 0]).
-  rewrite (rd_assemble spell cfg c ls ils es Hm Hrd 0 [] code s').
-  - replace (c_len cfg <? N.of_nat (length code))%N with false by lia.
-    unfold expand_fuel. cbn [c_values c_startexpr c]. rewrite expand_expression_plain by (repeat constructor; cbn; discriminate).
+  cbn [mconf_of mf_len] in El.
+  (* the label table and the start expression of the model *)
+  assert (Hkeys : map fst ls = flat_map il_labels ils ++ elabs).
+  { unfold ls. rewrite map_app, lab_pairs_keys. f_equal. unfold end_pairs. rewrite map_map. cbn [fst]. apply map_id. }
+  assert (Hrange : forall id a j, 0 <= j -> (j < n \/ j = 0) -> lab_find' id ls = Some a -> Z.abs (a - j) < Z.of_N (c_size cfg)).
+  { intros id a j Hj0 Hj Ha. unfold ls in Ha. rewrite lab_find'_app in Ha.
+    destruct (lab_find' id (lab_pairs 0 ils)) as [v|] eqn:E1.
+    - inversion Ha; subst v. pose proof (lab_pairs_range spell _ _ _ _ E1) as Hr. fold n in Hr. lia.
+    - destruct (end_pairs_find _ _ _ _ Ha) as [-> Hne].
+      destruct xo as [x|]; [|destruct Hend as [_ Hnil]; congruence].
+      destruct Hend as [_ [Hnil|Hlt]]; [congruence|]. fold n in Hlt. lia. }
+  set (se := match xo with
+             | Some x => match en_e x with [] => match org with Some e => etoks spell e | None => [num_tok 0] end | a => a end
+             | None => match org with Some e => etoks spell e | None => [num_tok 0] end
+             end).
+  set (c := mkC (load_constants cfg) (set_all (spell_pairs spell ls) []) se).
+  assert (Hsym : load_symbols cfg (elines 0 es ++ match xo with Some x => [end_sline x] | None => [] end) = c).
+  { rewrite load_symbols_fold, fold_left_app.
+    rewrite (rd_symbols spell cfg org ils es Hrd 0 (load_constants cfg) [] [num_tok 0] 0). fold n. unfold c, se, ls.
+    destruct xo as [x|].
+    - destruct Hend as [[Hl [Hkw _]] _]. cbn [fold_left ls_step end_sline sl_typ sl_op sl_labels sl_a c_values c_labels c_startexpr fst].
+      assert (K1 : lower_is (en_kw x) "equ" = false /\ lower_is (en_kw x) "org" = false).
+      { unfold lower_is in *. apply text_eqb_eq in Hkw. rewrite Hkw. split; reflexivity. }
+      destruct K1 as [K1 K2]. rewrite K1, K2, Hkw. cbn [fst].
+      rewrite Hl, set_labels. unfold spell_pairs. rewrite map_app, set_all_app. rewrite Z.add_0_l. reflexivity.
+    - destruct Hend as [_ ->]. cbn [fold_left fst end_pairs map]. rewrite app_nil_r. reflexivity. }
+  assert (Hknown : forall j id, 0 <= j -> (j < n \/ j = 0) -> known (mconf_of cfg) ls id ->
+                     name_expands spell (Z.of_N (c_size cfg)) c j (rho_of (mconf_of cfg) ls j) id).
+  { intros j id Hj0 Hj Hk. apply known_expands; [rewrite Hkeys; exact Hsp| |exact Hk].
+    intros a Ha. apply (Hrange id a j Hj0 Hj Ha). }
+  rewrite <- compile_essential, Hess. unfold compile. rewrite Hv. cbn [negb]. rewrite Hsym.
+  cbn [c_values c_labels c_startexpr c]. rewrite constants_acyclic.
+  assert (Hea : eval_assertions (Z.of_N (c_size cfg)) c (elines 0 es ++ match xo with Some x => [end_sline x] | None => [] end) = Some (EOk 1)).
+  { destruct xo as [x|]; [rewrite ea_skip_last by (cbn; discriminate)|rewrite app_nil_r]; apply (rd_assertions spell _ _ org ils es Hrd 0). }
+  fold c. rewrite Hea. rewrite constants_resolved. fold c.
+  assert (Haa : assemble_all cfg c (elines 0 es ++ match xo with Some x => [end_sline x] | None => [] end) [] = inr code').
+  { destruct xo as [x|]; [rewrite aa_skip_last by (cbn; discriminate)|rewrite app_nil_r];
+      (apply (rd_assemble spell cfg c ls org ils es Hm Hrd 0 [] code' s'); [|exact Emc]);
+      intros j id Hj Hk; apply Hknown; try assumption; fold n in Hj; lia. }
+  change (mkC (load_constants cfg) (set_all (spell_pairs spell ls) []) se) with c. rewrite Haa.
+  replace (c_len cfg <? N.of_nat (length code'))%N with false by lia.
+  (* the entry point *)
+  assert (Hstart : forall e, nok e -> se = etoks spell e ->
+            match value_at (mconf_of cfg) [] ls 0 e with
+            | MV v => if (v <? 0) || (negb (v =? 0) && (Z.of_nat (length code') <=? v)) then MReject else MOk code' v
+            | MErr => MReject
+            | MAny => MUnconstrained
+            end = MOk code start ->
+            match expand_expression (expand_fuel c) (Z.of_N (c_size cfg)) c 0 se with
+            | None => COutOfFuel
+            | Some None => CErr
+            | Some (Some se0) =>
+              match evaluate_expression se0 with
+              | EErr => CErr
+              | EUnmodelled => CUnmodelled
+              | EOk sv => if ((sv <? 0) || (negb (sv =? 0) && (Z.of_nat (length code') <=? sv))) then CErr else COk code' sv meta
+              end
+            end = COk code start meta).
+  { intros e He Ese H. destruct (value_at (mconf_of cfg) [] ls 0 e) as [v| |] eqn:Ev; try discriminate.
+    destruct (value_at_spec (mconf_of cfg) ls 0 e v He Ev) as [Ke [De Ie]].
+    assert (Ne : Forall (name_expands spell (Z.of_N (c_size cfg)) c 0 (rho_of (mconf_of cfg) ls 0)) (names e)).
+    { eapply Forall_impl; [|exact Ke]. intros id Hk. apply Hknown; [lia|right; reflexivity|exact Hk]. }
+    destruct (operand_value spell (S (length (c_values c))) (Z.of_N (c_size cfg)) c 0 _ e v He Ne De Ie) as [xs [X1 X2]].
+    rewrite Ese. unfold expand_fuel. rewrite X1, X2.
+    destruct ((v <? 0) || (negb (v =? 0) && (Z.of_nat (length code') <=? v))); [discriminate|]. inversion H; subst. reflexivity. }
+  destruct org as [eo|], pend as [ep|]; try discriminate.
+  - (* ORG *)
+    apply (Hstart eo Horg); [|exact Hmean]. unfold se. destruct xo as [x|]; [|reflexivity].
+    destruct Hend as [[_ [_ Hee]] _]. rewrite Hee. reflexivity.
+  - (* END with an expression *)
+    destruct xo as [x|]; [|destruct Hend as [Hp _]; discriminate Hp].
+    destruct Hend as [[_ [_ [Hee Hnok]]] _]. apply (Hstart ep Hnok); [|exact Hmean]. unfold se. rewrite Hee.
+    destruct (etoks spell ep) eqn:E; [exfalso; exact (etoks_nonempty spell ep E)|reflexivity].
+  - (* neither *)
+    inversion Hmean; subst code' start.
+    assert (Ese : se = [num_tok 0]).
+    { unfold se. destruct xo as [x|]; [|reflexivity]. destruct Hend as [[_ [_ Hee]] _]. rewrite Hee. reflexivity. }
+    rewrite Ese. unfold expand_fuel. rewrite expand_expression_plain by (repeat constructor; cbn; discriminate).
     rewrite eval_num. reflexivity.
-  - intros j id Hj Hk. apply known_expands; try assumption; lia.
-  - exact Emc.
 Qed.
 
 End Whole.
